@@ -73,8 +73,13 @@ fn values(sh: Shape, radix: u32) -> BoxedStrategy<Pat> {
         };
         wrap(zq.mul(&scale).add(&zr).mod_2k(w))
     });
+    // binary-aligned small multiples of the conversion bases r^p (the divisor of the repeated short division)
+    let bases: Vec<u64> = [p_full, p_half, 1, 2].iter().filter_map(|&p| r.pow_capped(p, 64).and_then(|b| b.to_u64())).filter(|&b| db == 64 || b < (1u64 << db)).collect();
+    let bases = if bases.is_empty() { vec![1u64] } else { bases };
+    let aligned = proptest::sample::select(bases).prop_flat_map(move |b| gen::base_aligned(sh, b));
     prop_oneof![
         4 => gen::pattern(sh),
+        3 => aligned,
         4 => chunked,
         4 => quotient_structured,
         3 => powers,
@@ -256,7 +261,7 @@ fn main() {
     runner::main(
         Property {
             id: "C11",
-            rule: "Every radix 2..=256 in every run (radices <= 36 and powers of two weighted x3). Values: structured W-bit patterns; sums c_i*(r^p)^i with many chunks c_i in {0, 1, r^p-1} for the chunk sizes p implied by the digit size and half the digit size (interior zero chunks); r^j and r^j+-1; quotient-structured values q*(r^p)^m + rem with q a structured binary pattern (zero / extreme binary digits in the running quotient); single-digit values; boundary values (MAX, MIN, -1, 0). Oracle: the canonical numeral from the reference integer by repeated single-limb division (lowercase, no leading zeros, '0' for zero, '-' + magnitude for negatives; the two's-complement pattern for to_radix_be/le of signed types), plus the round trips through from_str_radix / from_radix_be / from_radix_le; out-of-range radices {0, 1, 37, 257, 258, 65536, u32::MAX} panic and in-range ones never do. A deterministic NUMERAL-LENGTH SWEEP per configuration adds r^k - 1, r^k, r^k + 1 (both signs for signed types) for every exponent k with r^k representable and the radices {10, 3, 6, 7, 12, 36, 100, 255}, and 2^b - 1, 2^(b-1) for every bit length b in decimal (base 3 as well up to 1088 bits) - all exponents and bit lengths on types up to 1088 bits, a spread selection on wider types in the quick tier (about 120 decimal exponents, 16 exponents of the other radices, every 41st bit length), all of them in the thorough tier; these are the inputs on which a length estimate derived from the bit length is off by one. NON-TRIVIAL: the output has >= 3 digits. distinct = distinct (profile, job, inputs) by 64-bit hash. 8-bit configuration: all values x all radices.",
+            rule: "Every radix 2..=256 in every run (radices <= 36 and powers of two weighted x3). Values: structured W-bit patterns; sums c_i*(r^p)^i with many chunks c_i in {0, 1, r^p-1} for the chunk sizes p implied by the digit size and half the digit size (interior zero chunks); r^j and r^j+-1; quotient-structured values q*(r^p)^m + rem with q a structured binary pattern (zero / extreme binary digits in the running quotient); single-digit values; boundary values (MAX, MIN, -1, 0); values built from whole-digit or half-digit binary chunks that are small multiples of the conversion base r^p or miss it by one (the partial dividend of a short-division step equals the divisor). Oracle: the canonical numeral from the reference integer by repeated single-limb division (lowercase, no leading zeros, '0' for zero, '-' + magnitude for negatives; the two's-complement pattern for to_radix_be/le of signed types), plus the round trips through from_str_radix / from_radix_be / from_radix_le; out-of-range radices {0, 1, 37, 257, 258, 65536, u32::MAX} panic and in-range ones never do. A deterministic NUMERAL-LENGTH SWEEP per configuration adds r^k - 1, r^k, r^k + 1 (both signs for signed types) for every exponent k with r^k representable and the radices {10, 3, 6, 7, 12, 36, 100, 255}, and 2^b - 1, 2^(b-1) for every bit length b in decimal (base 3 as well up to 1088 bits) - all exponents and bit lengths on types up to 1088 bits, a spread selection on wider types in the quick tier (about 120 decimal exponents, 16 exponents of the other radices, every 41st bit length), all of them in the thorough tier; these are the inputs on which a length estimate derived from the bit length is off by one. NON-TRIVIAL: the output has >= 3 digits. distinct = distinct (profile, job, inputs) by 64-bit hash. 8-bit configuration: all values x all radices.",
             assumptions: &[
                 "digits()/from_digits()/to_bits()/from_bits() are the trusted observation channel",
                 "reference numerals by repeated division of the reference integer by the radix (self-tested against the primitives' formatting)",
